@@ -1234,6 +1234,7 @@ func (st *Store) Emit(sb *strings.Builder, roots []*Term) []string {
 		fmt.Fprintf(sb, "(declare-fun %s (%s) %s)\n", smtName(n), strings.Join(as, " "), d.res)
 	}
 	names := map[int]string{}
+	inlDepth := map[int]int{}
 	var expr func(t *Term) string
 	ref := func(t *Term) string {
 		if n, ok := names[t.ID]; ok {
@@ -1270,8 +1271,19 @@ func (st *Store) Emit(sb *strings.Builder, roots []*Term) []string {
 		if t.Op == OConst || t.Op == OSym || t.Op == OSeqEmpty {
 			continue
 		}
-		if refs[t.ID] <= 1 && len(t.Args) <= 3 {
-			// inline
+		// inline single-use small terms, but never more than a few levels deep: a long chain of single-use terms
+		// (a cell rewritten again and again under fresh conditions) would otherwise be printed as one nested
+		// string whose construction is quadratic in the chain length
+		d := 1
+		for _, a := range t.Args {
+			if _, named := names[a.ID]; !named {
+				if x := inlDepth[a.ID] + 1; x > d {
+					d = x
+				}
+			}
+		}
+		if refs[t.ID] <= 1 && len(t.Args) <= 3 && d <= 6 {
+			inlDepth[t.ID] = d
 			continue
 		}
 		e := expr(t)
